@@ -39,13 +39,18 @@ RootIdOk(st) ==
 
 StOk ==
     LET st == Cur.st IN
-    IF handle' = "closed" THEN st.open = FALSE /\ roots' = roots
+    IF R("st") THEN roots' = roots
+    ELSE IF handle' = "closed" THEN st.open = FALSE /\ roots' = roots
     ELSE /\ st.open
          /\ R("kv") \/ \A k \in Keys : st.kv[k] = kv'[k]            \* C01
          /\ R("kv") \/ st.probesOk                                 \* never-written keys read None
          /\ R("seqn") \/ st.seqn = seqn'
          /\ R("poison") \/ st.poisoned = poisoned'
          /\ R("root") \/ ((~poisoned') => st.rootOk)               \* C02: root = reference trie root
+         \* C16: the files decode, by the documented formats alone, to a well-formed image of exactly this state
+         /\ IF R("dec") \/ "dec" \notin DOMAIN st THEN TRUE ELSE st.dec.ok /\ st.dec.kvOk
+         \* C19: no page below the frontier is leaked; the reported occupancy is the number of full buckets
+         /\ IF R("alloc") \/ "dec" \notin DOMAIN st THEN TRUE ELSE st.dec.noLeak /\ st.dec.occupiedOk
          /\ RootIdOk(st)
 
 IsEv(e) == l <= Len(Rec) /\ Cur.ev = e
@@ -104,6 +109,8 @@ TrTryCommit ==
     /\ IsEv("TryCommit")
     /\ \/ Cur.res = "Ok" /\ TryCommitDone(Cur.f)
        \/ Cur.res = "HandedBack" /\ TryCommitHandedBack(Cur.f)
+       \* concurrent runs: another writer may hold the lock at that moment; handing back is a no-op anyway
+       \/ Cur.res = "HandedBack" /\ R("conc") /\ fin[Cur.f].st = "ready" /\ UNCHANGED vars
        \/ Cur.res = "Stale" /\ TryCommitStale(Cur.f)
        \/ Cur.res = "Poisoned" /\ CommitPoisoned(Cur.f)
     /\ StOk /\ Adv
@@ -190,6 +197,20 @@ TrFault ==
     /\ (~Cur.injected) => Cur.res = "Ok"
     /\ UNCHANGED <<vars, roots>> /\ Adv
 
+\* concurrent traces: a read through a live session (its view never moves: C15), and the observation
+\* of the quiescent store after all threads have ended
+TrSessionRead ==
+    /\ IsEv("SessionRead")
+    /\ sess[Cur.s].st = "live"
+    /\ \A k \in Keys : Cur.view[k] = sess[Cur.s].view[k]
+    /\ Cur.viewProbesOk
+    /\ UNCHANGED <<vars, roots>> /\ Adv
+
+TrObserve ==
+    /\ IsEv("Observe")
+    /\ Obs(Cur.st, kv, seqn)
+    /\ UNCHANGED <<vars, roots>> /\ Adv
+
 TraceInit == Init /\ l = 1 /\ roots = [m \in Maps |-> 0]
 
 TraceNext ==
@@ -197,7 +218,7 @@ TraceNext ==
     \/ TrBegin \/ TrBeginRefused \/ TrDropSession \/ TrFinish \/ TrDropFinished
     \/ TrCommit \/ TrTryCommit \/ TrIntoOverlay \/ TrDropOverlay
     \/ TrOverlayCommit \/ TrOverlayTryCommit \/ TrRollback
-    \/ TrClose \/ TrReopen \/ TrCrash \/ TrImage \/ TrFault
+    \/ TrClose \/ TrReopen \/ TrCrash \/ TrImage \/ TrFault \/ TrSessionRead \/ TrObserve
 
 TraceSpec == TraceInit /\ [][TraceNext]_tvars
 
